@@ -203,11 +203,13 @@ def close(a, b, rel=1e-10, abs_=0.0):
 # E1-style exploration of live composites.  A history is a list of operations applied to a start object:
 #     ["add", key, amount]            in-place  obj.add(key, amount)     (key already present or new)
 #     ["plus", [[key, amount], ...]]  obj = obj + other                   (other: fresh composite of the same kind)
+#     ["pluscomp", key, amount]       obj = obj + <one component object>  (Element for a Substance, Substance for a
+#                                     Material) carrying the proportion `amount`
 #     ["mul", k]                      obj = obj * k  (Substance)  /  k * obj  (Material)
 # The reference state is nothing but the ordered dict {component: amount}.
 def model_apply(counts, op):
     c = dict(counts)
-    if op[0] == "add":
+    if op[0] in ("add", "pluscomp"):
         c[op[1]] = (c[op[1]] + op[2]) if op[1] in c else op[2]
     elif op[0] == "plus":
         for k, v in op[1]:
@@ -229,6 +231,8 @@ def op_class(counts, op):
     """feature of an operation relative to the state it is applied to (used as a tag)"""
     if op[0] == "add":
         return "add-existing" if op[1] in counts else "add-new"
+    if op[0] == "pluscomp":
+        return "pluscomp-existing" if op[1] in counts else "pluscomp-new"
     if op[0] == "plus":
         keys = [k for k, _ in op[1]]
         if not any(k in counts for k in keys):
@@ -249,17 +253,31 @@ def history_tags(counts, history):
     return sorted(tags)
 
 
-def real_run(obj, history, make_other, material):
-    """apply the history to the live object; make_other(pairs) builds the right operand of '+'"""
+def real_run(obj, history, make_other, material, make_component=None, counts=None, alive=None):
+    """apply the history to the live object; make_other(pairs) builds the right operand of '+',
+    make_component(key, amount) the single-component operand.  When `counts` (start amounts) and the list `alive`
+    are given, every operand of a non-mutating operation is appended to `alive` as (role, object, amounts it must
+    still have) so that the caller can re-read it afterwards."""
     for op in history:
         if op[0] == "add":
             obj.add(op[1], op[2])
-        elif op[0] == "plus":
-            obj = obj + make_other(op[1])
-        elif material:
-            obj = op[1] * obj
         else:
-            obj = obj * op[1]
+            left = obj
+            if op[0] == "plus":
+                other = make_other(op[1])
+                obj = left + other
+                if alive is not None:
+                    alive.append(("right-operand", other, dict((k, v) for k, v in op[1])))
+            elif op[0] == "pluscomp":
+                obj = left + make_component(op[1], op[2])
+            elif material:
+                obj = op[1] * left
+            else:
+                obj = left * op[1]
+            if alive is not None and counts is not None:
+                alive.append(("left-operand", left, dict(counts)))
+        if counts is not None:
+            counts = model_apply(counts, op)
     return obj
 
 
@@ -273,3 +291,83 @@ def histories(alphabet, depth):
 
 def state_key(start, counts):
     return (start,) + tuple((k, float(v)) for k, v in counts.items())
+
+
+# ------------------------------------------------------------------------------------------ module-level state
+# State that crosses objects (caches at module or class level of scinumtools.materials) would make one case depend on
+# the cases executed before it in the same worker, and a reported failure would not reproduce in a fresh process.
+# The snapshot remembers every plain container (dict / list / set) found at module level and in the class dicts of the
+# materials modules; materials_state_restore() puts them back in place (shallow), removes containers that appeared
+# later and clears functools caches.  It returns the names of what it had to repair.
+_MSNAP = None
+
+
+def _material_holders():
+    import sys
+    import inspect
+    out = []
+    for name, mod in sorted(sys.modules.items()):
+        if mod is None or not name.startswith("scinumtools.materials"):
+            continue
+        out.append((name, mod, vars(mod)))
+        for cname, cls in list(vars(mod).items()):
+            if inspect.isclass(cls) and getattr(cls, "__module__", "") == name:
+                out.append((name + "." + cname, cls, dict(vars(cls))))
+    return out
+
+
+def materials_state_snapshot():
+    global _MSNAP
+    snap = {}
+    for hname, holder, attrs in _material_holders():
+        for a, v in list(attrs.items()):
+            if a.startswith("__"):
+                continue
+            if type(v) in (dict, list, set):
+                snap[(hname, a)] = (v, type(v)(v))
+    _MSNAP = snap
+    return len(snap)
+
+
+def materials_state_restore():
+    if _MSNAP is None:
+        materials_state_snapshot()
+        return []
+    repaired = []
+    for hname, holder, attrs in _material_holders():
+        for a, v in list(attrs.items()):
+            if a.startswith("__"):
+                continue
+            if type(v).__name__ == "_lru_cache_wrapper":       # functools.lru_cache / functools.cache
+                try:
+                    if v.cache_info().currsize:
+                        repaired.append(hname + "." + a + " (function cache)")
+                    v.cache_clear()
+                except Exception:
+                    pass
+                continue
+            if type(v) not in (dict, list, set):
+                continue
+            key = (hname, a)
+            if key not in _MSNAP:
+                if len(v):
+                    repaired.append(hname + "." + a + " (new container)")
+                v.clear()
+                continue
+            obj, copy_ = _MSNAP[key]
+            same = (v is obj) and len(v) == len(copy_) and \
+                (list(v) == list(copy_) if type(v) is not set else v == copy_)
+            if same and type(v) is dict:
+                same = all(v[k] is copy_[k] for k in copy_)
+            if not same:
+                repaired.append(hname + "." + a)
+                if v is not obj:
+                    setattr(holder, a, obj)
+                obj.clear()
+                if type(obj) is dict:
+                    obj.update(copy_)
+                elif type(obj) is list:
+                    obj.extend(copy_)
+                else:
+                    obj |= copy_
+    return repaired
